@@ -30,7 +30,8 @@ func init() {
 			"Not decided: delivery of in-flight data before the close, timing. " +
 			"(A) no SetLinger(≥0) on any bridge connection (an abortive close discards queued data and resets the peer); a net.Conn wrapper's Close either is the embedded connection's or takes no lock that another method holds across blocking network I/O. " +
 			"No raw descriptor access (File/Fd/SyscallConn) on bridge sockets; after an acquisition no path returns before its Close is deferred; DialWebsocket does not retain its context. " +
-			"Every websocket dial of the bridge is bounded in time (gorilla DefaultDialer, a positive HandshakeTimeout, or a deadline context). (L, C15) no websocket read limit is armed on bridge connections.",
+			"Every websocket dial of the bridge is bounded in time (gorilla DefaultDialer, a positive HandshakeTimeout, or a deadline context). (L, C15) no websocket read limit is armed on bridge connections." +
+			" A wrapper's Close writes nothing to the websocket unless the write is bounded (WriteControl with time.Now().Add(<constant>)): gorilla serialises writers, and a data write stalled by back-pressure holds that lock.",
 		Assumptions: []string{"closing a net.Conn / websocket.Conn unblocks a Read pending on it and makes the peer observe end-of-stream"},
 		Run:         runC16,
 	})
